@@ -10,7 +10,7 @@ d=$(mktemp -d /tmp/cotoolXXXXXX); trap 'rm -rf "$d"' EXIT
 rsync -a --exclude .git --exclude example --exclude 'rewriter/test' "$repo/" "$d/"
 mkdir -p "$d/zzs/src" "$d/zzs/tool"
 i=0
-for f in "$@"; do i=$((i+1)); cp "$f" "$d/zzs/src/s$i.go"; done
+for f in "$@"; do i=$((i+1)); cp "$f" "$d/zzs/src/s$i.go"; [ -d "${f%.go}.files" ] && cp "${f%.go}.files"/* "$d/zzs/src/"; done
 cat > "$d/zzs/tool/main.go" <<'GO'
 package main
 
@@ -37,6 +37,9 @@ if [ $st -ne 0 ]; then
   if echo "$out" | grep -q COMPILER-PANIC; then echo "$out" | grep COMPILER-PANIC | cut -c1-400; else echo "COMPILER-PANIC: $(tail -5 "$d/compile.err" | tr '\n' ' ' | cut -c1-400)"; fi
   exit 3
 fi
+# companion files of a sample (<sample>.files/*: e.g. a file named by //go:embed) belong next to the generated code too:
+# the compiler writes Go files only, as it does when it generates in place
+for f in "$@"; do [ -d "${f%.go}.files" ] && cp "${f%.go}.files"/* "$d/zzs/out/"; done
 if [ -n "$COTOOL_SHOW" ]; then cat "$d"/zzs/out/*.go; fi
 if ! go build -o "$d/zzs/prog" ./zzs/out 2>"$d/build.err"; then echo "BUILD-FAIL: $(head -5 "$d/build.err" | tr '\n' ' ' | sed "s|$d/||g" | cut -c1-500)"; exit 4; fi
 timeout 20 "$d/zzs/prog" 2>"$d/run.err"; st=$?
